@@ -81,7 +81,7 @@ B("c03-suffix-not-lowered", "C03", INIT, "_, _, suffix = file.name.lower().rpart
 B("c03-suffix-swapped", "C03", INIT, "            if suffix == \"ssc\":\n                return (file, True)\n            elif suffix == \"sm\":\n                return (file, False)", "            if suffix == \"ssc\":\n                return (file, False)\n            elif suffix == \"sm\":\n                return (file, True)", "suffix dispatch")
 B("c03-version-case", "C03", INIT, "first_param.key.upper() == \"VERSION\"", "first_param.key == \"VERSION\"", "VERSION")
 B("c03-load-classes-swapped", "C03", INIT, "    if is_ssc:\n        return SSCSimfile(file=file, strict=strict)\n    else:\n        return SMSimfile(file=file, strict=strict)", "    if not is_ssc:\n        return SSCSimfile(file=file, strict=strict)\n    else:\n        return SMSimfile(file=file, strict=strict)", "is_ssc")
-B("c03-parse-skipped-for-empty-string", "C03", BASE, "        if file is not None or string is not None:", "        if file or string:", "parse runs")
+B("c03-parse-skipped-for-empty-string", "C03", BASE, "        if file is not None or string is not None:", "        if file or string:", "whenever file or string is given")
 B("c03-second-tokenizer", "C03", SM, "    def _from_str(self, string: str) -> None:\n        self._from_msd(string.split(\":\"))", "    def _from_str(self, string: str) -> None:\n        from msdparser import parse_msd\n        list(parse_msd(string=string))\n        self._from_msd(string.split(\":\"))", "parse_msd")
 B("c03-first-param-second", "C03", INIT, "        first_param = next(parser)\n", "        next(parser)\n        first_param = next(parser)\n", "first parameter")
 
